@@ -44,15 +44,13 @@ def expectation(g, msg):
         if "mailbox" not in msg:
             return "error" if not g.holding else "error"
         if g.holding:
-            # held until its own close; if the mailbox was deleted under it by another connection the protocol
-            # text does not say whether it still counts as held
-            return "error" if g.sub is not None else "either"
+            return "error"      # one open per connection: held from its open until its own close
         return "ok"
     if t == "add":
         if not g.holding:
             return "error"
         if g.sub is None:
-            return "either"
+            return "error"      # the mailbox it had open no longer exists: an add without an open mailbox
         if "phase" not in msg or "body" not in msg:
             return "error"
         return "ok"
@@ -221,7 +219,7 @@ class C17(ProtoSpec):
             self.mids = ["m", ""]
             self.binds = [("X", "A"), ("X", "B")]
             self.max_conns = 2
-            self.depth = 6
+            self.depth = 4
             self.max_adds = 1
         else:
             self.names = ["1", NFC, NFD, "", "01", " 1", "A", "a", "\U0001F600", "n" * 300]
@@ -252,6 +250,15 @@ class C17(ProtoSpec):
             if len(opened) > 1:
                 evs.append(("drop", c))
         return evs
+
+    def seeds(self):
+        """non-initial start states: two connections of the same side on one mailbox; both sides holding a nameplate"""
+        b0 = ("raw", 0, {"type": "bind", "appid": "X", "side": "A"})
+        s1 = [("conn", 0), b0, ("raw", 0, {"type": "open", "mailbox": "m"}), ("conn", 1),
+              ("raw", 1, {"type": "bind", "appid": "X", "side": "A"})]
+        s2 = [("conn", 0), b0, ("raw", 0, {"type": "claim", "nameplate": "1"}), ("conn", 1),
+              ("raw", 1, {"type": "bind", "appid": "X", "side": "B"}), ("raw", 1, {"type": "claim", "nameplate": "1"})]
+        return [[], s1, s2]
 
     def nontrivial(self, worlds, mon):
         return any(g.app is not None for g in mon.conns.values())
